@@ -3,9 +3,10 @@ CONSTANTS
   Vals = {0, 16, 48, 80}
   Ramps = {0, 16, 32}
   Jitters = {0}
-  Shapes = {"ramp", "none"}
+  Shapes = {"ramp", "none", "writable", "readable"}
 INVARIANT TypeOK
 INVARIANT Storage
+INVARIANT WritableFollows
 PROPERTY BusyOnChange
 PROPERTY BusyUntilArrival
 PROPERTY BusyAfterTick
